@@ -897,6 +897,9 @@ func checkC12(c *Ctx, r *Report) {
 	// algorithms must not lose any of them
 	// … and the advertisement the selector works from is the whole one: discovery reads every
 	// page, and a page that fails makes discovery fail rather than end (shared with C16/C05)
+	// "or fails with the no-supported-cipher-suite error": the sentinel keeps its identity through
+	// every exported entry point above the selector
+	checkSentinelReachesCaller(c, r, "ErrNoSupportedCipherSuite")
 	checkChunkLoop(c, r)
 	if parser := c.cipherSuiteParser(); parser != nil {
 		checkCipherSuiteParser(c, r, parser)
